@@ -193,6 +193,11 @@ def check_tree(prop, tier, replay):
         nscen += modes["orders"]
         mdist += modes["states"]
         mgen += modes["generated"]
+    if prop == "C10":
+        # the typed layer's subscriptions: a never-reading typed subscriber keeps the first buffer, siblings see everything
+        import fam_filters
+        st = fam_filters.run_typed(res, tier, {"typed-healthy-lost-events", "typed-stalled-not-first-buffer", "crash"})
+        nscen += 12
     if prop == "C16":
         # the typed layer's monitors (all 12 generated packages): same callback protocol
         import fam_filters
